@@ -1,9 +1,11 @@
 package main
 
 import (
+	"bytes"
 	"fmt"
 
 	"github.com/ethereum/go-ethereum/common"
+	"github.com/ethereum/go-ethereum/crypto"
 	me "verif/harness/minievm"
 	tl "verif/harness/tracelib"
 )
@@ -17,8 +19,13 @@ type expectAcct struct {
 }
 
 type tcase struct {
-	Tx     me.Tx     `json:"tx"`
-	Accts  []me.Acct `json:"accts"`
+	Tx    me.Tx     `json:"tx"`
+	Accts []me.Acct `json:"accts"`
+	Extra struct {
+		Init []int  `json:"init"`
+		C2   bool   `json:"c2"`
+		Salt uint64 `json:"salt"`
+	} `json:"extra"`
 	Expect struct {
 		Valid    bool         `json:"valid"`
 		Ok       bool         `json:"ok"`
@@ -57,6 +64,24 @@ func runReplay(in string, sum *tl.Summary) {
 				continue
 			}
 			w.Add(&me.Account{Addr: uint64(a.Addr), Balance: a.Bal, Nonce: a.Nonce, Code: toBytes(a.Code), Storage: st})
+		}
+		if len(c.Extra.Init) > 0 {
+			// family "create": the address the creation is aimed at is a hash; patch the
+			// 20 placeholder bytes after PUSH20 in the creator's code with the real one
+			creator := me.Addr(me.AddrC1)
+			target := crypto.CreateAddress(creator, 1)
+			if c.Extra.C2 {
+				var salt [32]byte
+				salt[31] = byte(c.Extra.Salt)
+				target = crypto.CreateAddress2(creator, salt, crypto.Keccak256(toBytes(c.Extra.Init)))
+			}
+			code := w.Get(me.AddrC1).Code
+			ph := append([]byte{0x73}, bytes.Repeat([]byte{0xaa}, 20)...)
+			i := bytes.Index(code, ph)
+			if i < 0 {
+				tl.Fatal("case %d: no address placeholder in the creator's code", i)
+			}
+			copy(code[i+1:], target[:])
 		}
 		data := toBytes(c.Tx.Data)
 		if c.Tx.To < 0 {
